@@ -575,7 +575,8 @@ func TestFecMismatch(t *testing.T) {
 			// loss afterwards: recovery under the adopted ratio (whole groups, one data packet lost per group)
 			w.seen = map[int]map[int]bool{}
 			for w.cnt != 0 { // finish the current group without delivering (its packets are simply lost)
-				w.encode(10, true)
+				em, cont := w.encode(10, true)
+				w.record(tr, "Encode", nil, nil, em, cont, start, "")
 			}
 			w.air = nil
 			tr.Add(map[string]any{"ev": "phase", "name": "recovery", "panic": false})
